@@ -14,3 +14,7 @@ Lemma tie_interp : forall x y t j, gen_interp x y t j = interp x y t j.
 Proof. reflexivity. Qed.
 Lemma tie_closest : forall x y t, closest x y t = nth (argmin (map (fun v => gen_absdiff v t) y)) x 0.
 Proof. reflexivity. Qed.
+(* Scores.threshold_at_metric is transcribed statement by statement in Model/InvertPL.v (select_points, threshold_at_metric);
+   the translator accepts the source only if those statements are unchanged *)
+Lemma tie_threshold_at_metric_pinned : gen_threshold_at_metric_pinned = true.
+Proof. reflexivity. Qed.
